@@ -415,3 +415,68 @@ func BaseName(f *ssa.Function) string {
 }
 
 var _ = token.ADD
+
+// chainUp returns in, the call site of in's function, the call site of that one's
+// function, … up to root (private helpers have one call site each).
+func chainUp(root *ssa.Function, in ssa.Instruction) []ssa.Instruction {
+	set := Reach(root)
+	out := []ssa.Instruction{in}
+	for i := 0; i < 6; i++ {
+		f := out[len(out)-1].Parent()
+		if f == root {
+			break
+		}
+		sites := callSitesIn(f, set)
+		if len(sites) != 1 {
+			break
+		}
+		out = append(out, sites[0])
+	}
+	return out
+}
+
+// CommonFrame lifts a and b (instructions anywhere in Reach(root)) to instructions of one
+// function: the instruction itself or the call through which it is executed.
+func CommonFrame(root *ssa.Function, a, b ssa.Instruction) (ssa.Instruction, ssa.Instruction, bool) {
+	ca, cb := chainUp(root, a), chainUp(root, b)
+	for _, x := range ca {
+		for _, y := range cb {
+			if x.Parent() == y.Parent() {
+				return x, y, true
+			}
+		}
+	}
+	return nil, nil, false
+}
+
+// ReachableAfterDeep: target can execute after `from` has executed (both anywhere in
+// Reach(root)).
+func ReachableAfterDeep(root *ssa.Function, from, target ssa.Instruction) bool {
+	x, y, ok := CommonFrame(root, from, target)
+	if !ok {
+		return true // unknown relation: assume reachable
+	}
+	if x == y {
+		// both inside the same call: order is decided inside (different helpers of one call cannot happen)
+		return true
+	}
+	return ReachableFrom(After(x), y)
+}
+
+// RootOf follows the private call sites upwards: the outermost function of which fn is
+// (transitively) a private helper.
+func RootOf(fn *ssa.Function) *ssa.Function {
+	for i := 0; i < 4; i++ {
+		cs := privateCallSite(fn)
+		if cs == nil {
+			if fn.Parent() != nil {
+				// a closure: its parent is the frame
+				fn = fn.Parent()
+				continue
+			}
+			return fn
+		}
+		fn = cs.Parent()
+	}
+	return fn
+}
